@@ -290,6 +290,7 @@ def run_case(mod, case, opts):
         res['steps'] = stats.steps; res['wall'] = time.time() - t0
         return res
     # vacuity: path conditions must be satisfiable (explore only keeps feasible paths)
+    false_cache = {}
     for o in all_obls:
         res['obligations'] += 1
         if o.goal is None:
@@ -298,6 +299,17 @@ def run_case(mod, case, opts):
             continue
         if o.depth is not None: res['depth_max'] = max(res['depth_max'], o.depth[0])
         hyp = list(o.hyp) + list(getattr(o.kp.dom, 'hyp', []))
+        if z3.is_false(o.goal):
+            # structural violation (e.g. an element the kernel never writes): only the feasibility of the path matters, and that
+            # is decided once per path, not once per element
+            key = id(o.kp)
+            if key not in false_cache:
+                r0, m0, dt0 = smt.check_api(list(o.pc) + hyp, opts.get('timeout', case.timeout)); solver_t += dt0
+                false_cache[key] = (r0, m0)
+            r0, m0 = false_cache[key]
+            if r0 == 'unsat': res['discharged'] += 1
+            else: res['sat'].append({'label': o.label, 'note': o.note, 'model': m0 or {}, 'kind': o.kind})
+            continue
         r, m, dt, who = smt.prove(o.pc, hyp, o.goal, timeout_s=opts.get('timeout', case.timeout), logic=case.smt_logic(), portfolio=case.portfolio, order_only=getattr(case, 'order_only', False), api_default=getattr(case, 'api_default', False))
         solver_t += dt
         if r == 'unsat': res['discharged'] += 1
